@@ -99,6 +99,21 @@ func deflateRaw(data, dict []byte, level int) []byte {
 	return append([]byte(nil), out...)
 }
 
+// deflateFinal compresses data into a complete DEFLATE stream whose last block has BFINAL=1 (what
+// flate.Writer.Close() emits). RFC 7692 §7.2.3.5 allows a sender to end a message that way.
+func deflateFinal(data, dict []byte, level int) []byte {
+	var b bytes.Buffer
+	var w *flate.Writer
+	if len(dict) > 0 {
+		w, _ = flate.NewWriterDict(&b, level, dict)
+	} else {
+		w, _ = flate.NewWriter(&b, level)
+	}
+	_, _ = w.Write(data)
+	_ = w.Close()
+	return append([]byte(nil), b.Bytes()...)
+}
+
 // decodedFrame is the harness's own RFC 6455 frame decoder output (independent of gws's reader).
 type decodedFrame struct {
 	fin, rsv1, rsv2, rsv3, masked bool
